@@ -472,7 +472,18 @@ def r01_5(ctx, run, rule='R01.5', which='ser'):
         if b is None:
             run.violation(rule, path, 'contract', 'function not found (anchor lost)')
             continue
-        acc = Accounting(b, usize_measure if kind == 'usize' else jm2, cs, atom_norm)
+        def is_buffer(t, b=b):
+            x = deref_all(t)
+            if x[0] == 'init':
+                ty = b.local_ty(x[1])
+                return ty.get('k') == 'ref' and ty['inner'].get('s') == 'std::vec::Vec<u8>'
+            if x[0] == 'post':
+                x = x[2]
+                if x[0] == 'locval':
+                    loc = x[1]
+                    return loc[0] == 'S' and loc[2][0] == 'field' and loc[2][1] == 'buf'
+            return x[0] == 'field' and x[2] == 'buf'
+        acc = Accounting(b, usize_measure if kind == 'usize' else jm2, cs, atom_norm, is_buffer=is_buffer)
         probs = acc.run()
         # in write_entry the Raw arm returns the stored entry: its length equals len(data) by R06.2 (checked there)
         probs2 = []
